@@ -63,10 +63,16 @@ def run_verus(path, rlimit=200, timeout=900, extra=()):
         res["kind"] = "pass"
         return res
     msgs = [e["msg"] for e in res["error_list"]]
-    if any("rlimit" in m.lower() or "resource limit" in m.lower() for m in msgs) or "Resource limit" in err:
+    rlimit_hit = any("rlimit" in m.lower() or "resource limit" in m.lower() for m in msgs) or "Resource limit" in err
+    definite = [e for e in res["error_list"] if re.search(r"postcondition not satisfied|assertion failed|invariant not satisfied|precondition not satisfied|overflow|underflow", e["msg"])]
+    if rlimit_hit and not definite:
         res["kind"] = "undecided"
         res["reason"] = "rlimit exceeded"
         return res
+    if rlimit_hit:
+        # a definite failed obligation was reported next to a resource-limit message: keep the definite ones
+        res["error_list"] = definite
+        res["rlimit_also_hit"] = True
     compile_like = [m for m in msgs if not re.search(
         r"postcondition|assertion failed|invariant|precondition|overflow|underflow|division|decreases|arithmetic|index|bounds|recommend|cast|shift|termination|unreachable", m)]
     if compile_like and len(compile_like) == len(msgs):
